@@ -3,6 +3,7 @@ Theorems: Props/C07.lean (the models are pure: a search cannot change the index,
 keyword as the single search does).  Tie: scheme correspondence + direct oracle on the real code: deep copies of the database,
 configuration dict and key before/after EDBSetup; serialized index byte-identical after every search of random histories;
 result(w) equal at every occurrence; a second index built by the same scheme object."""
+import os
 from run_check import Result
 import schemes_env as se
 import schemes_corr as sc
@@ -13,6 +14,29 @@ MODULE = "SSEPyVerif.Props.C07"
 LEANCHECK = ["SSEPyVerif.Props.C07"]
 TRUSTED = sk.TRUSTED + ["purity is true by construction in a functional model; the assurance that the CODE mutates nothing comes from the correspondence and the before/after comparison on the real objects"]
 ASSUMPTIONS = []
+
+
+def translate(ctx):
+    """regenerate Generated/MutationSites.lean from the working tree (every mutating statement of the scheme layer with the
+    provenance of the object it changes); `Props/C07: scheme_layer_mutates_only_its_own_objects` is re-checked against it"""
+    import common
+    from translate import mutation_sites
+    sites = mutation_sites.generate(common.REPO, os.path.join(common.LEAN, "SSEPyVerif", "Generated", "MutationSites.lean"))
+    bad = [s for s in sites if s["kind"] not in ("fresh", "init")]
+    ctx.c07_sites = bad
+    import collections
+    return {"mutation_sites": len(sites), "by_kind": dict(collections.Counter(s["kind"] for s in sites)),
+            "not_fresh": [f'{s["kind"]} {s["file"]}:{s["line"]} {s["func"]}: {s["stmt"]}' for s in bad][:40]}
+
+
+def _schemes_of_sites(ctx):
+    """scheme names whose modules hold a site that is not `fresh` (for the targeted failing-input search)"""
+    out = []
+    for s in getattr(ctx, "c07_sites", []):
+        for n, m in se.MODULE.items():
+            if s["file"].startswith("schemes/" + m.replace(".", "/") + "/") and n not in out:
+                out.append(n)
+    return out
 
 
 def correspond(ctx):
@@ -38,7 +62,9 @@ def correspond(ctx):
 
 def search(ctx, broken, res0):
     res = Result()
-    for c in sk.targeted_cases(ctx, res0) + sk.gen_cases(ctx, se.NAMES, ctx.pick(10, 25)):
+    named = _schemes_of_sites(ctx)
+    for c in sk.targeted_cases(ctx, res0) + (sk.targeted_cases(ctx, res0, names=named) if named else []) + \
+            sk.gen_cases(ctx, se.NAMES, ctx.pick(10, 25)):
         res.evaluations += 1
         so.c07(res, c, ctx.rng)
     return res
